@@ -615,7 +615,7 @@ def gen_runtime_cases(rng, toks, n: int):
         elif k == "gen":
             kinds_ = tuple(rng.sample(["function", "class", "argparse"], rng.randint(1, 2)))
             src, _ = G.adv_module(rng, toks, kinds=kinds_)
-            cases.append({"fn": "gen", "src": src, "opts": {"parse": rng.choice(["infer", "class", "function", "argparse_function"]),
+            cases.append({"fn": "gen", "src": src, "opts": {"parse": rng.choice(["infer", "class", "function", "class", "function", "argparse_function"]),
                                                           "emit": rng.choice(["class", "argparse", "function", "json_schema", "sqlalchemy", "sqlalchemy_table", "pydantic"]),
                                                           "emit_call": rng.random() < 0.3, "infer_imports": rng.random() < 0.3, "nww": rng.choice([None, True])}})
         elif k == "bottle":
@@ -625,8 +625,11 @@ def gen_runtime_cases(rng, toks, n: int):
         elif k == "openapi":
             cases.append({"fn": "openapi", "openapi_str": G.adv_yaml_block(rng), "opts": {"method": rng.choice(["get", "post", "patch"])}})
         else:
-            cases.append({"fn": "openapi_bulk", "src_models": G.adv_module(rng, toks, kinds=("sqlalchemy",))[0],
-                          "src_routes": "\n\n".join(G.adv_bottle_src(rng, toks, fname="r%d" % i).replace("rest_api", "app") for i in range(rng.randint(1, 3)))})
+            mild = rng.random() < 0.7  # hostile text only inside strings, so that the walk over the model file gets as far as the routes
+            src_models = G.adv_sqlalchemy_src(rng, toks, calls=not mild) if mild else G.adv_module(rng, toks, kinds=("sqlalchemy",))[0]
+            cases.append({"fn": "openapi_bulk", "src_models": src_models,
+                          "src_routes": "\n\n".join(G.adv_bottle_src(rng, toks, fname="r%d" % i, benign_yaml=mild and rng.random() < 0.7).replace("rest_api", "app")
+                                                    for i in range(rng.randint(1, 3)))})
     return cases
 
 
@@ -663,10 +666,19 @@ FIXED_CASES = [
 # ======================================================================================================================
 def run(chk: core.Check) -> int:
     rng = chk.rng
+    import time
+
+    t_sections, t_last = {}, [time.time()]
+
+    def _t(name):
+        now = time.time()
+        t_sections[name] = round(now - t_last[0], 1)
+        t_last[0] = now
+
     # ---- (0) translator, table, theorems -----------------------------------------------------------------------------
     sites, tables, _ = evalsites.regen()
     ok, detail = evalsites.selftest()
-    chk.oblige("translator self-test (harness/translators/evalsites.py on a module with 43 known sites)", "translator", ok, detail)
+    chk.oblige("translator self-test (harness/translators/evalsites.py on two small modules with 47 known sites, aliases and star imports)", "translator", ok, detail)
     chk.lean(MODULE, THEOREMS)
     by_kind = {}
     for s in sites:
@@ -690,6 +702,7 @@ def run(chk: core.Check) -> int:
         c = core.model_batch([{"op": "c17.constants"}])[0]
         chk.oblige("driver: model constants survive the safe-by-type representation unchanged (%s constants)" % c.get("n"), "correspondence", bool(c.get("lossless")), json.dumps(c))
 
+    _t("translator+lean")
     # ---- (1) correspondence: parse_adhoc_doc_for_typ ------------------------------------------------------------------
     rt = real_tables()
     toks = G.adhoc_tokens(rt)
@@ -728,9 +741,9 @@ def run(chk: core.Check) -> int:
         for t in itertools.product(core_toks[:22], repeat=4):
             if rng.random() < 0.5:
                 add("".join(t))
-    for _ in range(40000 if chk.quick else 300000):
+    for _ in range(40000 if chk.quick else 500000):
         add(G.adhoc_sentence(rng, toks))
-    for _ in range(20000 if chk.quick else 150000):
+    for _ in range(20000 if chk.quick else 250000):
         add(G.adhoc_random(rng, toks))
     impl = core.pmap(impl_adhoc, cases, chunksize=512)
     model = core.model_batch([{"op": "c17.adhoc", "doc": d, "name": n, "none": f} for d, n, f in cases]) if have_driver else [None] * len(cases)
@@ -766,6 +779,7 @@ def run(chk: core.Check) -> int:
     for (d, n, f), t in adv[:3]:
         chk.sample({"doc": d, "default_is_none": f, "eval_argument": t})
 
+    _t("adhoc correspondence")
     # ---- (2) correspondence: phase 0, every character class ----------------------------------------------------------
     p0 = []
     cps = list(range(0, 0x3100)) + [0xFEFF, 0xFF08, 0xFF09, 0xFF3F, 0xFF40, 0xFFFD]
@@ -788,9 +802,10 @@ def run(chk: core.Check) -> int:
     chk.oblige("correspondence: _parse_adhoc_doc_for_typ_phase0 = Adhoc.phase0 on %d strings (every code point below U+3100 in four contexts)" % len(p0),
                "correspondence", n_dis == 0 and have_driver, "%d disagreements" % n_dis)
 
+    _t("phase0 correspondence")
     # ---- (3) runtime oracle on the real code ----------------------------------------------------------------------------
-    rcases = [CONTROL_CASE] + FIXED_CASES + corpus_rt + gen_runtime_cases(rng, toks, 1200 if chk.quick else 12000)
-    recs, meta = run_children(rcases)
+    rcases = [CONTROL_CASE] + FIXED_CASES + corpus_rt + gen_runtime_cases(rng, toks, 1200 if chk.quick else 25000)
+    recs, meta = run_children(rcases, timeout=150 if chk.quick else 900)
     if not meta["bound_ok"]:
         chk.oblige("docstring_parsers.parse_adhoc_doc_for_typ is the function of parse_utils (profile sees every call)", "correspondence", False,
                    "the name used at the eval site is bound to a different function")
@@ -844,6 +859,8 @@ def run(chk: core.Check) -> int:
                                      {"typ": a["ret"]}, p)
     chk.oblige("correspondence: %d in-situ calls of parse_adhoc_doc_for_typ (captured inside the real parsers) = model; %d doc-derived eval executions all equal the model's prediction"
                % (n_insitu, n_exec_doc), "correspondence", n_dis == 0 and have_driver, "%d disagreements" % n_dis)
+    _t("runtime oracle")
+    chk.coverage["section_seconds"] = t_sections
     chk.coverage["runtime_cases_by_fn"] = fn_stats
     chk.coverage["runtime_steps"] = dict(sorted(step_stats.items()))
     chk.coverage["runtime_doc_eval_executions"] = n_exec_doc
